@@ -84,6 +84,19 @@ Theorem T20_kv_latest_save : forall pre k v mid, forallb (fun op => negb (s_writ
   last (spec_outs [] (pre ++ SSave k v :: mid ++ [SLoad k])) TOk = TVal v.
 Proof. exact spec_latest_save. Qed.
 
+(* DictCache is a well-behaved client: for every operation sequence on the cache the calls that reach
+   the storage are load/preload/delete of stored keys only -- so the hypothesis `wf` above is met by
+   every use of the cache, and under every schedule the threaded storage answers the cache's calls
+   exactly like the key-value store of T20_dictcache_refines_dict *)
+Theorem T20_dictcache_calls_wellformed : forall ops, wf [] (calls_of ops) = true.
+Proof. exact dictcache_calls_wellformed. Qed.
+
+Theorem T20_threaded_under_dictcache : forall qmax ops sched,
+  let st := lts_run qmax None sched (init (calls_of ops)) in
+  dead st = false /\
+  (caller_finished st = true -> rev (t_outs st) = spec_outs [] (calls_of ops)).
+Proof. exact threaded_under_dictcache. Qed.
+
 (* no deadlock, for every schedule, every program (well-formed or not), with or without a task that
    raises: a caller that has not finished can take a step after at most 3|queue|+2 worker steps
    (so it terminates under weak fairness of the worker) *)
@@ -134,6 +147,11 @@ Example T20_lts_failure_example :
   t_status st = WDead /\ caller_finished st = true /\ rev (t_outs st) = [TOk; TOk; TWorkerDied; TWorkerDied].
 Proof. vm_compute. repeat split. Qed.
 
+Example T20_calls_example :
+  calls_of [CShort [1]; CSet 1 10; CSet 2 20; CGetItem 2; CPreload [1; 2; 3] false; CDel 1; CGetItem 1]
+  = [SSave 1 10; SSave 2 20; SLoad 2; SPreload 1; SPreload 2; SDelete 1].
+Proof. vm_compute. reflexivity. Qed.
+
 Print Assumptions T20_events.
 Print Assumptions T20_events_emit_until.
 Print Assumptions T20_events_disconnect.
@@ -144,6 +162,8 @@ Print Assumptions T20_reads_latest_write.
 Print Assumptions T20_subcache_isolated.
 Print Assumptions T20_threaded_linearizable.
 Print Assumptions T20_kv_latest_save.
+Print Assumptions T20_dictcache_calls_wellformed.
+Print Assumptions T20_threaded_under_dictcache.
 Print Assumptions T20_no_deadlock.
 Print Assumptions T20_dead_worker_never_blocks.
 Print Assumptions T20_dead_worker_raises.
